@@ -5,7 +5,7 @@
 From Coq Require Import String List NArith Arith.
 From CMinx Require Import Base.Str Model.Lexer Model.Parser Model.Aggregator Model.Pipeline
      Model.Naming Model.Walk
-     Proofs.LexerFacts Proofs.ParserFacts Proofs.PipelineFacts Proofs.WalkFacts.
+     Proofs.LexerFacts Proofs.ParserFacts Proofs.PipelineFacts Proofs.WalkFacts Proofs.GrammarFacts.
 Import ListNotations.
 
 (* no source character is skipped: the pieces (tokens, whitespace, comments) concatenate to the source *)
@@ -105,3 +105,13 @@ Theorem C06_nothing_after_abort :
     document st hdrs docfn excl base kind = l1 ++ a :: l2 -> is_stop a = true -> l2 = [].
 Proof. exact nothing_after_abort. Qed.
 Print Assumptions C06_nothing_after_abort.
+
+(* unbalanced parentheses: the running depth of an accepted token sequence never goes negative
+   and ends at zero *)
+Theorem C06_balanced_parens : forall ts f, parse ts = Some f -> depth_ok ts 0 = true.
+Proof. exact balanced_parens. Qed.
+Print Assumptions C06_balanced_parens.
+
+Theorem C06_unbalanced_parens_rejected : forall ts, depth_ok ts 0 = false -> parse ts = None.
+Proof. exact unbalanced_parens_rejected. Qed.
+Print Assumptions C06_unbalanced_parens_rejected.
